@@ -87,8 +87,17 @@ def gen_op(rng, P, allow=None, eligible=None):
         return P.add_op(kind, [a, b], [], [bshape(sa, P.tshape[b])])
     if kind == 'self2':   # the same tensor used twice by one op
         return P.add_op(rng.pick(['add', 'mul']), [a, a], [], [sa])
-    if kind in ('neg', 'clone'):
+    if kind in ('neg', 'clone', 'relu', 'tanh', 'sigmoid'):
         return P.add_op(kind, [a], [], [sa])
+    if kind in ('softmax', 'log_softmax'):
+        if len(sa) == 0: return None
+        return P.add_op(kind, [a], [rng.randrange(-len(sa), len(sa))], [sa])
+    if kind == 'cross_entropy':      # needs an (N, C) operand and an existing integer leaf of N labels below C
+        if len(sa) != 2 or 0 in sa: return None
+        labs = [nd for nd in P.nodes if nd['kind'] == 'leaf' and nd.get('dt') == 'i64' and tuple(nd['shape']) == (sa[0],) and max(nd['data']) < sa[1]]
+        if not labs: return None
+        nd = rng.pick(labs)
+        return P.add_op('cross_entropy', [a, nd['outs'][0]], [show_ints([int(v) for v in nd['data']])], [(sa[0],)])
     if kind == 'pow':
         return P.add_op('pow', [a], [fbits(2.0)], [sa])
     if kind in ('sum', 'mean'):
